@@ -50,6 +50,15 @@ class Ticker:
         self.env.schedule_event(self.env.now + self.period, -1, self, 4.5)
 
 
+class TickerStart:
+    def __init__(self, ticker):
+        self.ticker = ticker
+        self.__name__ = 'ticker_start'
+
+    def __call__(self):
+        self.ticker()
+
+
 def normaliser(base):
     def norm(x):
         return x - base if isinstance(x, int) and not isinstance(x, bool) else x
@@ -121,7 +130,9 @@ def run_model(spec, seed, segments, tie, offset=0, system=None):
     with instrument.use_bus(bus):
         m = build_mod.build(dict(spec, tie=tie, seed=seed), bus=None, system=system)
         env = m.system.env
-        env.schedule_event(0.625, -1, Ticker(env, 1.25), 4.5)
+        # started from inside an event of the run (asset id -2), so that it is born while the simulation runs
+        tick = Ticker(env, 1.25)
+        env.schedule_event(0.625, -2, TickerStart(tick), 4.5)
         for d in segments:
             m.system.simulate(d, print_summary=False)
     return digest(m, base), bus.dispatch_serial, m
